@@ -15,7 +15,7 @@ def main(tier):
     rep.trust('the structural argument: a conjunction of exact field equalities is an equivalence relation; a hash computed from fields that __eq__ compares exactly respects it')
     rep.gaps.append('GroupOp and vacancyThermoKinetics compare float fields with np.allclose BY DESIGN: the equivalence-relation clause fails for them as a formula '
                     '(known findings, each identified by obligation and witness signature; any other failure is still reported)')
-    return finish(rep, 'proof',
+    return finish(rep, 'other',
                   'Structural contracts over the extracted __eq__/__ne__/__hash__ (negation, conjunction of exact field equalities, hash over compared fields) '
                   'for every value type; PairState arithmetic identities and commutation with symmetry discharged symbolically on the real source (E4); '
                   'the same laws evaluated on pools of real instances incl. near-equal floats (B).',
